@@ -35,7 +35,16 @@ int main(void) {
   Cell top = {0}; uint8_t tn[2] = {'T', 0}; top.f0 = tn; Ref* ra[1] = {&ref}; top.f2.f0 = 1; top.f2.f1 = 1; top.f2.f2 = (void*)ra;
   uint64_t qtag = FILTER == 2 ? tag ^ 1 : tag;          /* FILTER: 0 none, 1 matching tag, 2 other tag */
   PArr res = {0};
+#if FLAT
+  /* Cell::flatten: afterwards the cell's OWN polygons are what the full-depth query returned, the cell reference has moved to the result list */
+  { ARGT__ZN5gdstk4Cell7flattenEbRNS_5ArrayIPNS_9ReferenceEEE_2 removed = {0};
+    _ZN5gdstk4Cell7flattenEbRNS_5ArrayIPNS_9ReferenceEEE(&top, APPLY, &removed);
+    CHECK(top.f2.f1 == 0 && removed.f1 == 1 && ((Ref**)removed.f2)[0] == &ref, "the cell reference is removed from the cell and handed back");
+    CHECK(top.f3.f1 == 0 && top.f4.f1 == 0 && top.f5.f1 == 0, "no paths or labels appear from nowhere");
+    res.f0 = top.f1.f0; res.f1 = top.f1.f1; res.f2 = (void*)top.f1.f2; top.f2.f1 = 1; }
+#else
   _ZNK5gdstk4Cell12get_polygonsEbblbmRNS_5ArrayIPNS_7PolygonEEE(&top, APPLY, 0, (uint64_t)(int64_t)DEPTH, FILTER != 0, qtag, &res);
+#endif
   /* denotation of the result: every polygon expanded by whatever repetition it still carries */
   OI gx[8], gy[8]; int ng = 0;
   for (int i = 0; i < 4; i++) if ((uint64_t)i < res.f1) { Poly* p = ((Poly**)res.f2)[i];
